@@ -210,6 +210,9 @@ pub struct OpSpec {
     pub d: u64,
     pub work: u8,
     pub erased: bool,
+    /// non-zero: this op and the other op with the same number are the same call issued in the same situation,
+    /// once on the ActorRef and once through the type-erased wrapper (C16)
+    pub pair: u32,
 }
 
 struct RunCtx {
@@ -289,7 +292,7 @@ fn begin(ctx: &RunCtx, own: &str, spec: &OpSpec, slot: u32) -> (u64, u64) {
     // the deprecated aliases ignore their timeout: for the monitors they are untimed operations
     let d = if matches!(spec.api, "tell_blocking" | "ask_blocking" | "ask_join" | "ask_join_panic") { 0 } else { spec.d };
     emit(ctx.run, json!({"e": "OpStart", "op": op, "own": own, "kind": kind, "api": spec.api, "h": 0, "a": ctx.target,
-                         "m": m, "d": d, "now": ctx.now_floor(), "erased": spec.erased, "slot": slot,
+                         "m": m, "d": d, "now": ctx.now_floor(), "erased": spec.erased, "pair": spec.pair, "slot": slot,
                          "jp": spec.api == "ask_join_panic"}));
     (op, m)
 }
@@ -346,12 +349,22 @@ async fn do_async<const K: u32>(ctx: Arc<RunCtx>, r: ActorRef<T>, own: String, s
         }
         // timeout variants of the blocking API called from inside the runtime must not panic
         "blocking_tell_in_rt" | "blocking_tell_in_ct" => {
-            let x = r.blocking_tell(msg, Some(dur));
+            let x = if spec.erased {
+                let h: Box<dyn TellHandler<MsgK<K>>> = (&r).into();
+                h.blocking_tell(msg, Some(dur))
+            } else {
+                r.blocking_tell(msg, Some(dur))
+            };
             let (s, rt) = res_of(&x);
             (s, 0, rt)
         }
         "blocking_ask_in_rt" | "blocking_ask_in_ct" => {
-            let x = r.blocking_ask(msg, Some(dur));
+            let x = if spec.erased {
+                let h: Box<dyn AskHandler<MsgK<K>, Val>> = (&r).into();
+                h.blocking_ask(msg, Some(dur))
+            } else {
+                r.blocking_ask(msg, Some(dur))
+            };
             let (s, rt) = res_of(&x);
             (s, x.map(|v| v.0).unwrap_or(0), rt)
         }
@@ -487,7 +500,7 @@ async fn scenario(run: u64, seed: u64, feats: Value, mix: &str) -> Vec<Value> {
         let mut specs = Vec::new();
         for _ in 0..k_ops {
             specs.push((slot, OpSpec { api: ASYNC_APIS[rng.random_range(0..ASYNC_APIS.len())], d: *[3u64, 10, 40].get(rng.random_range(0..3)).unwrap(),
-                                       work: rng.random_range(0..4), erased: rng.random_range(0..3) == 0 }));
+                                       work: rng.random_range(0..4), erased: rng.random_range(0..3) == 0, pair: 0 }));
             slot += 1;
         }
         let (ctx2, r2, own) = (ctx.clone(), aref.clone(), format!("c{c}"));
@@ -504,7 +517,7 @@ async fn scenario(run: u64, seed: u64, feats: Value, mix: &str) -> Vec<Value> {
         for _ in 0..k_ops {
             let api = BLOCK_APIS[rng.random_range(0..BLOCK_APIS.len())];
             let d = if rng.random_range(0..2) == 0 { 0 } else { *[5u64, 20, 60].get(rng.random_range(0..3)).unwrap() };
-            specs.push((slot, OpSpec { api, d, work: rng.random_range(0..4), erased: rng.random_range(0..3) == 0 }));
+            specs.push((slot, OpSpec { api, d, work: rng.random_range(0..4), erased: rng.random_range(0..3) == 0, pair: 0 }));
             slot += 1;
         }
         let (ctx2, r2, own) = (ctx.clone(), aref.clone(), format!("b{b}"));
@@ -527,7 +540,7 @@ async fn scenario(run: u64, seed: u64, feats: Value, mix: &str) -> Vec<Value> {
         let mut specs = Vec::new();
         for _ in 0..k_ops {
             let api = if rng.random_range(0..2) == 0 { "blocking_tell_in_ct" } else { "blocking_ask_in_ct" };
-            specs.push((slot, OpSpec { api, d: *[5u64, 20, 40].get(rng.random_range(0..3)).unwrap(), work: rng.random_range(0..4), erased: false }));
+            specs.push((slot, OpSpec { api, d: *[5u64, 20, 40].get(rng.random_range(0..3)).unwrap(), work: rng.random_range(0..4), erased: false, pair: 0 }));
             slot += 1;
         }
         let (ctx2, r2) = (ctx.clone(), aref.clone());
@@ -547,8 +560,8 @@ async fn scenario(run: u64, seed: u64, feats: Value, mix: &str) -> Vec<Value> {
         tasks.push(tokio::spawn(async move {
             tokio::time::sleep(Duration::from_micros(delay_us)).await;
             match ending {
-                "stop" => do_async::<47>(ctx2, r2, "ctl".into(), OpSpec { api: "stop", d: 0, work: 0, erased: false }).await,
-                "kill" => do_async::<47>(ctx2, r2, "ctl".into(), OpSpec { api: "kill", d: 0, work: 0, erased: false }).await,
+                "stop" => do_async::<47>(ctx2, r2, "ctl".into(), OpSpec { api: "stop", d: 0, work: 0, erased: false, pair: 0 }).await,
+                "kill" => do_async::<47>(ctx2, r2, "ctl".into(), OpSpec { api: "kill", d: 0, work: 0, erased: false, pair: 0 }).await,
                 _ => {}
             }
         }));
@@ -612,41 +625,53 @@ async fn frozen_scenario(run: u64, seed: u64, feats: Value) -> Vec<Value> {
                                 pending: Mutex::new(BTreeSet::new()), target: name.clone() });
     ACTIVE.lock().unwrap().get_or_insert_with(HashMap::new).insert(run, ctx.clone());
     // freeze the actor in a handler and fill its only slot
-    do_async::<0>(ctx.clone(), aref.clone(), "c0".into(), OpSpec { api: "tell", d: 0, work: 9, erased: false }).await;
+    do_async::<0>(ctx.clone(), aref.clone(), "c0".into(), OpSpec { api: "tell", d: 0, work: 9, erased: false, pair: 0 }).await;
     for _ in 0..200 {
         if probe.__verif_counts().1 == 1 {
             break; // the frozen message has been taken: the slot is free again
         }
         tokio::time::sleep(Duration::from_millis(1)).await;
     }
-    do_async::<1>(ctx.clone(), aref.clone(), "c0".into(), OpSpec { api: "tell", d: 0, work: 0, erased: false }).await;
+    do_async::<1>(ctx.clone(), aref.clone(), "c0".into(), OpSpec { api: "tell", d: 0, work: 0, erased: false, pair: 0 }).await;
     let ds = [20u64, 40, 60];
     let mut tasks = Vec::new();
     let mut threads = Vec::new();
     let mut slot = 2u32;
+    let mut pairno = 0u32;
+    // every caller issues its call twice at the same time: on the ActorRef and through the type-erased wrapper.
+    // The actor stays frozen and its only slot stays taken, so the two calls are in the same situation (C16).
     let mut pick = |rng: &mut StdRng, apis: [&'static str; 2]| {
-        let s = OpSpec { api: apis[rng.random_range(0..2)], d: ds[rng.random_range(0..3)], work: 0, erased: rng.random_range(0..3) == 0 };
-        slot += 1;
-        (slot - 1, s)
+        let api = apis[rng.random_range(0..2)];
+        let d = ds[rng.random_range(0..3)];
+        pairno += 1;
+        slot += 2;
+        [(slot - 2, OpSpec { api, d, work: 0, erased: false, pair: pairno }), (slot - 1, OpSpec { api, d, work: 0, erased: true, pair: pairno })]
     };
-    let (k, spec) = pick(&mut rng, ["blocking_tell", "blocking_ask"]);
-    let (c2, r2) = (ctx.clone(), aref.clone());
-    threads.push(std::thread::spawn(move || with_k!(k, do_blocking, c2, r2, "b0".to_string(), spec)));
-    let (k, spec) = pick(&mut rng, ["blocking_tell", "blocking_ask"]);
-    let (c2, r2) = (ctx.clone(), aref.clone());
-    tasks.push(tokio::task::spawn_blocking(move || with_k!(k, do_blocking, c2, r2, "b1".to_string(), spec)));
-    let (k, spec) = pick(&mut rng, ["blocking_tell_in_rt", "blocking_ask_in_rt"]);
-    let (c2, r2) = (ctx.clone(), aref.clone());
-    tasks.push(tokio::spawn(async move { with_k!(k, do_async_boxed, c2, r2, "c1".to_string(), spec).await }));
-    let (k, spec) = pick(&mut rng, ["tell_with_timeout", "ask_with_timeout"]);
-    let (c2, r2) = (ctx.clone(), aref.clone());
-    tasks.push(tokio::spawn(async move { with_k!(k, do_async_boxed, c2, r2, "c2".to_string(), spec).await }));
-    let (k, spec) = pick(&mut rng, ["blocking_tell_in_ct", "blocking_ask_in_ct"]);
-    let (c2, r2) = (ctx.clone(), aref.clone());
-    threads.push(std::thread::spawn(move || {
-        let rt = tokio::runtime::Builder::new_current_thread().enable_time().build().unwrap();
-        rt.block_on(async move { with_k!(k, do_async_boxed, c2, r2, "t0".to_string(), spec).await });
-    }));
+    for (i, (k, spec)) in pick(&mut rng, ["blocking_tell", "blocking_ask"]).into_iter().enumerate() {
+        let (c2, r2) = (ctx.clone(), aref.clone());
+        threads.push(std::thread::spawn(move || with_k!(k, do_blocking, c2, r2, format!("b0{i}"), spec)));
+    }
+    for (i, (k, spec)) in pick(&mut rng, ["blocking_tell", "blocking_ask"]).into_iter().enumerate() {
+        let (c2, r2) = (ctx.clone(), aref.clone());
+        tasks.push(tokio::task::spawn_blocking(move || with_k!(k, do_blocking, c2, r2, format!("b1{i}"), spec)));
+    }
+    for (i, (k, spec)) in pick(&mut rng, ["blocking_tell_in_rt", "blocking_ask_in_rt"]).into_iter().enumerate() {
+        let (c2, r2) = (ctx.clone(), aref.clone());
+        tasks.push(tokio::spawn(async move { with_k!(k, do_async_boxed, c2, r2, format!("c1{i}"), spec).await }));
+    }
+    for (i, (k, spec)) in pick(&mut rng, ["tell_with_timeout", "ask_with_timeout"]).into_iter().enumerate() {
+        let (c2, r2) = (ctx.clone(), aref.clone());
+        tasks.push(tokio::spawn(async move { with_k!(k, do_async_boxed, c2, r2, format!("c2{i}"), spec).await }));
+    }
+    // a caller that is an async task of a current-thread runtime: nothing else can run on that runtime (not even its
+    // timer) while the call blocks its only thread
+    for (i, (k, spec)) in pick(&mut rng, ["blocking_tell_in_ct", "blocking_ask_in_ct"]).into_iter().enumerate() {
+        let (c2, r2) = (ctx.clone(), aref.clone());
+        threads.push(std::thread::spawn(move || {
+            let rt = tokio::runtime::Builder::new_current_thread().enable_time().build().unwrap();
+            rt.block_on(async move { with_k!(k, do_async_boxed, c2, r2, format!("t0{i}"), spec).await });
+        }));
+    }
     let deadline = Instant::now() + Duration::from_millis(2500);
     for t in tasks {
         let left = deadline.saturating_duration_since(Instant::now());
@@ -870,7 +895,7 @@ pub fn run_teardown(iters: u64, seed: u64, out: &str, feats: Value, sample: u64)
                 let spin = rng.random_range(0..400);
                 tasks.push(tokio::spawn(async move {
                     for _ in 0..spin { std::hint::spin_loop(); }
-                    let spec = OpSpec { api: "ask", d: 0, work: 0, erased: false };
+                    let spec = OpSpec { api: "ask", d: 0, work: 0, erased: false, pair: 0 };
                     with_k!(c, do_async_boxed, ctx2, r2, format!("c{c}"), spec).await;
                 }));
             }
@@ -881,8 +906,8 @@ pub fn run_teardown(iters: u64, seed: u64, out: &str, feats: Value, sample: u64)
                 tasks.push(tokio::spawn(async move {
                     for _ in 0..spin { std::hint::spin_loop(); }
                     match way {
-                        3 => do_async::<47>(ctx2, r2, "ctl".into(), OpSpec { api: "kill", d: 0, work: 0, erased: false }).await,
-                        4 => do_async::<47>(ctx2, r2, "ctl".into(), OpSpec { api: "stop", d: 0, work: 0, erased: false }).await,
+                        3 => do_async::<47>(ctx2, r2, "ctl".into(), OpSpec { api: "kill", d: 0, work: 0, erased: false, pair: 0 }).await,
+                        4 => do_async::<47>(ctx2, r2, "ctl".into(), OpSpec { api: "stop", d: 0, work: 0, erased: false, pair: 0 }).await,
                         _ => {}
                     }
                 }));
